@@ -525,3 +525,80 @@ def pos_if(node):
             node.orelse:
         return t.operand, node.orelse, node.body
     return t, node.body, node.orelse
+
+
+def lits(e, pol, out):
+    """Decompose a branch condition into literals: ``a and b`` taken true is
+    a+ b+, ``a or b`` taken false is a- b-, ``not a`` flips."""
+    if isinstance(e, ast.UnaryOp) and isinstance(e.op, ast.Not):
+        lits(e.operand, not pol, out)
+    elif isinstance(e, ast.BoolOp) and isinstance(e.op, ast.And) and pol:
+        for v in e.values:
+            lits(v, True, out)
+    elif isinstance(e, ast.BoolOp) and isinstance(e.op, ast.Or) and not pol:
+        for v in e.values:
+            lits(v, False, out)
+    else:
+        out.append((e, pol))
+    return out
+
+
+def _terminates(stmts):
+    """The statement list never falls through (ends in return / raise /
+    continue / break, or an if whose both branches do)."""
+    if not stmts:
+        return False
+    last = stmts[-1]
+    if isinstance(last, (ast.Return, ast.Raise, ast.Continue, ast.Break)):
+        return True
+    if isinstance(last, ast.If) and last.orelse:
+        return _terminates(last.body) and _terminates(last.orelse)
+    return False
+
+
+def implicit_guards(node, stop):
+    """(If, 'orelse') for every earlier sibling ``if c: <never falls
+    through>`` without else, at any enclosing block level up to ``stop``:
+    the statement only runs when c was false (guard-clause form of
+    ``if c: ... else: <rest>``).  Loop bodies are included (continue)."""
+    out = []
+    child = node
+    cur = getattr(node, '_parent', None)
+    while cur is not None:
+        for fld in ('body', 'orelse', 'finalbody'):
+            blk = getattr(cur, fld, None)
+            if isinstance(blk, list) and any(child is s for s in blk):
+                for s in blk:
+                    if s is child:
+                        break
+                    if isinstance(s, ast.If) and not s.orelse and \
+                            _terminates(s.body):
+                        out.append((s, 'orelse'))
+        if cur is stop:
+            break
+        child = cur
+        cur = getattr(cur, '_parent', None)
+    return out
+
+
+def conds(node, stop, implicit=False):
+    """The branch literals under which ``node`` executes inside ``stop``:
+    list of (expr, polarity).  Spelling-independent: nested ifs, merged
+    ``and`` conditions, negated tests with swapped branches and (with
+    implicit=True) guard clauses all give the same literals."""
+    out = []
+    pairs = list(guarding_ifs(node, stop))
+    if implicit:
+        pairs += implicit_guards(node, stop)
+    for i, br in pairs:
+        lits(i.test, br == 'body', out)
+    return out
+
+
+def outer_if(node, stop):
+    """Outermost if statement enclosing node (below stop), or None."""
+    ifs = guarding_ifs(node, stop)
+    if not ifs:
+        return None
+    top = ifs[-1][0]
+    return getattr(top, 'node', top)
